@@ -478,15 +478,66 @@ func c11Attempts(c *core.Ctx, rt *ssa.Function) {
 			respV = ex
 		}
 	}
+	// rewrites403: in sets the StatusCode of resp to 403 — directly, or by
+	// handing resp to a same-package helper that does so before every return
+	// on which it reports no error.
+	store403 := func(in ssa.Instruction, resp ssa.Value) bool {
+		st, ok := in.(*ssa.Store)
+		if !ok {
+			return false
+		}
+		base, fld, isF := facts.FieldOf(st.Addr)
+		if !isF || fld != "StatusCode" || facts.Resolve(base) != resp {
+			return false
+		}
+		k, isK := facts.ConstInt(st.Val)
+		return isK && k == 403
+	}
+	rewrites403 := func(in ssa.Instruction) bool {
+		if store403(in, respV) {
+			return true
+		}
+		call, ok := in.(*ssa.Call)
+		if !ok {
+			return false
+		}
+		h := call.Call.StaticCallee()
+		if h == nil || h.Blocks == nil || h.Pkg != rt.Pkg {
+			return false
+		}
+		for i, a := range call.Call.Args {
+			if facts.Resolve(a) != respV || i >= len(h.Params) {
+				continue
+			}
+			p := ssa.Value(h.Params[i])
+			all, n := true, 0
+			for _, r := range returnsOf(h) {
+				if len(r.Results) > 0 && r.Results[len(r.Results)-1].Type().String() == "error" && !facts.RetErrIsNil(r) {
+					continue
+				}
+				n++
+				dom := false
+				for _, b := range h.Blocks {
+					for _, hin := range b.Instrs {
+						if store403(hin, p) && facts.Dominates(hin, r) {
+							dom = true
+						}
+					}
+				}
+				all = all && dom
+			}
+			if all && n > 0 {
+				c.Analysed(facts.FuncName(h))
+				return true
+			}
+		}
+		return false
+	}
 	set403 := false
 	for _, b := range rt.Blocks {
 		for _, in := range b.Instrs {
-			if st, ok := in.(*ssa.Store); ok {
-				if base, fld, isF := facts.FieldOf(st.Addr); isF && fld == "StatusCode" && facts.Resolve(base) == respV {
-					if k, isK := facts.ConstInt(st.Val); isK && k == 403 {
-						set403 = true
-					}
-				}
+			if rewrites403(in) {
+				set403 = true
 			}
 		}
 	}
@@ -503,6 +554,9 @@ func c11Attempts(c *core.Ctx, rt *ssa.Function) {
 					if _, fld, isF := facts.FieldOf(st.Addr); isF && fld == "StatusCode" {
 						rewritten = true
 					}
+				}
+				if _, isCall := in.(*ssa.Call); isCall && rewrites403(in) && facts.Dominates(in, r) {
+					rewritten = true
 				}
 			}
 		}
